@@ -36,7 +36,10 @@ MANIFEST = dict(
           "live entity regex) -> regex_order_irrelevant -> hash_seed_independent (listing order of regex alternatives, of "
           "cdata_containing_tags and of attributes does not reach the output). Tie: the constructor grid, formatter_for_name grid and "
           "rendering through every entry point on generated trees of both flavours, three-way: real code / direct oracle / Lean model; "
-          "instrumented custom functions; all attribute insertion orders; subprocess runs under different PYTHONHASHSEED."),
+          "instrumented custom functions; all attribute insertion orders; subprocess runs under >= 8 PYTHONHASHSEED values: whole documents "
+          "byte-identical, and every multi-code-point entity key / every first code point of one followed by each second code point and "
+          "other combining marks, as text and attribute value under 'html' and 'html5', equal to the independently computed "
+          "longest-key substitution for every seed (regex_particles_regular + htmlAlts_exclusive are the matching table obligations)."),
     design="7/C15",
     note=("The model's HTMLFormatter/XMLFormatter constructors mirror the REPAIRED code (indent forwarded); mkHTMLFormatterOld/"
           "mkXMLFormatterOld mirror 4.13.0 as shipped. Rendering is the recursive evaluator over an inductive tree (that _event_stream "
@@ -1114,8 +1117,8 @@ def run_child(docs, seed):
 
 def stream_determinism(ctx):
     docs = determinism_docs(ctx)
-    seeds = [0, 1, 2, 3, 7, 42, 1234, 99999][: ctx.n(5, 8)]
-    res = {s: run_child(docs, s) for s in seeds}
+    seeds = hash_seeds(ctx)
+    res = run_children(CHILD, docs, seeds)
     base = res[seeds[0]]
     ctx.extra["hash_seeds"] = seeds
     ctx.extra["distinct_regex_orders_seen"] = len({r["pattern_sha"] for r in res.values()})
@@ -1131,6 +1134,154 @@ def stream_determinism(ctx):
     ctx.count("hashseed:seeds", len(seeds))
     if ctx.extra["distinct_regex_orders_seen"] < 2:
         ctx.notes.append("all hash seeds produced the same regex alternative order (unexpected): the determinism runs were trivial")
+
+
+ENT_CHILD = r"""
+import sys, json
+sys.path.insert(0, sys.argv[1])
+import warnings; warnings.simplefilter("ignore")
+from bs4 import BeautifulSoup
+texts = json.load(sys.stdin)
+soup = BeautifulSoup("", "html.parser")
+out = []
+for t in texts:
+    tag = soup.new_tag("b")
+    tag["title"] = t
+    tag.string = t
+    out.append([tag.decode(formatter="html"), tag.decode(formatter="html5")])
+print(json.dumps(out))
+"""
+
+
+def entity_keyset():
+    """The character sequences the 'html'/'html5' formatters are documented to replace, computed WITHOUT the regex: the values of
+    the stdlib's html5 table, except single ASCII characters other than < > and all-ASCII sequences (dammit.py:186-204)."""
+    from html.entities import html5
+    keys = set()
+    for v in html5.values():
+        if len(v) == 1 and ord(v) < 128 and v not in "<>":
+            continue
+        if len(v) > 1 and all(ord(x) < 128 for x in v):
+            continue
+        if v == "&":
+            continue
+        keys.add(v)
+    return keys
+
+
+def expected_entities(s, keys, maxlen, names):
+    """longest key wins, left to right; `names` = the live CHARACTER_TO_HTML_ENTITY (which name is chosen is C09's business)"""
+    out, i = [], 0
+    while i < len(s):
+        for k in range(min(maxlen, len(s) - i), 0, -1):
+            cand = s[i:i + k]
+            if cand in keys:
+                out.append("&%s;" % names[cand])
+                i += k
+                break
+        else:
+            out.append(s[i])
+            i += 1
+    return "".join(out)
+
+
+def entity_texts(ctx):
+    """every multi-code-point key; every one-code-point key that starts a longer key followed by each possible second code point
+    and by other combining marks; each in several contexts. No '&', quotes or angle brackets besides the keys themselves."""
+    keys = entity_keyset()
+    longs = sorted(k for k in keys if len(k) > 1)
+    seconds = sorted({k[1] for k in longs})
+    marks = sorted(set(seconds) | set("̸⃒⃥̀́︀︁̳̱‍"))
+    firsts = sorted({k[0] for k in longs})
+    texts = []
+
+    def contexts(t):
+        return [t, "a" + t + "b", t + t, " " + t + "́", t + "x" + t[:1]]
+    for k in longs:
+        texts += contexts(k)
+        texts.append(k + k[1:])            # the key followed by its own tail once more
+    for c in firsts:
+        texts += [c, c + "z", "q" + c]
+        for m in marks:
+            texts += contexts(c + m)
+            for m2 in seconds[:4] + [m]:
+                texts.append(c + m + m2)   # two marks in a row (a look-ahead for a *sequence* shows here)
+    # all-ASCII sequences and single ASCII characters with names must be left alone
+    texts += ["fj", "a|b", "x=y+z", "tab\there"]
+    r = ctx.rng("entity-seeds")
+    allkeys = sorted(keys)
+    for _ in range(ctx.n(300, 3000)):
+        texts.append("".join(r.choice([r.choice(firsts), r.choice(marks), r.choice(allkeys), "a", " "]) for _ in range(r.randint(2, 6))))
+    seen, out = set(), []
+    for t in texts:
+        if t not in seen and not any(ch in t for ch in "&\"'"):
+            seen.add(t)
+            out.append(t)
+    return out, keys, max(len(k) for k in keys)
+
+
+def run_children(code, payload, seeds):
+    """the same child under each PYTHONHASHSEED, in parallel -> {seed: parsed stdout}"""
+    procs = {}
+    for sd in seeds:
+        env = dict(os.environ)
+        env["PYTHONHASHSEED"] = str(sd)
+        procs[sd] = subprocess.Popen([sys.executable, "-c", code, str(REPO)], stdin=subprocess.PIPE, stdout=subprocess.PIPE,
+                                     stderr=subprocess.PIPE, text=True, env=env)
+    res = {}
+    for sd, p in procs.items():
+        o, e = p.communicate(json.dumps(payload))
+        if p.returncode != 0:
+            raise RuntimeError(f"child under PYTHONHASHSEED={sd} failed: " + e[-800:])
+        res[sd] = json.loads(o)
+    return res
+
+
+def hash_seeds(ctx):
+    return [0, 1, 2, 3, 5, 7, 11, 42, 4, 6, 1234, 99999][: ctx.n(8, 12)]
+
+
+def stream_entity_seeds(ctx):
+    """'html'/'html5' output for every entity key and every near-miss of a multi-code-point key, under every hash seed, against the
+    independently computed substitution (and read back with html.unescape)"""
+    import html as pyhtml
+    ES = E()["ES"]
+    texts, keys, maxlen = entity_texts(ctx)
+    names = ES.CHARACTER_TO_HTML_ENTITY
+    missing = sorted(k for k in keys if k not in names)
+    seeds = hash_seeds(ctx)
+    res = run_children(ENT_CHILD, texts, seeds)
+    ctx.count("entity-seeds:texts", len(texts))
+    ctx.count("entity-seeds:seeds", len(seeds))
+    for ti, t in enumerate(texts):
+        if any(t[i:i + k] in missing for i in range(len(t)) for k in range(1, maxlen + 1)):
+            continue
+        exp = expected_entities(t, keys, maxlen, names)
+        want = f'<b title="{exp}">{exp}</b>'
+        for fi, fname in enumerate(("html", "html5")):
+            outs = {sd: res[sd][ti][fi] for sd in seeds}
+            ctx.case(("entity-seed", t, fname) if exp != t else None)
+            distinct = sorted(set(outs.values()))
+            bad = [sd for sd in seeds if outs[sd] != want]
+            if not bad:
+                if pyhtml.unescape(exp) != t:
+                    report(ctx, "entity-seeds", "substituted text does not read back (html.unescape) as the original",
+                           case={"op": "entity-seed", "text": t, "formatter": fname, "seeds": seeds[:2]}, expected=t,
+                           observed=pyhtml.unescape(exp), kf=None)
+                continue
+            good = [sd for sd in seeds if outs[sd] == want]
+            if len(distinct) > 1:
+                other = good[0] if good else [sd for sd in seeds if outs[sd] != outs[bad[0]]][0]
+                report(ctx, "entity-seeds", f"output of the '{fname}' formatter depends on PYTHONHASHSEED",
+                       case={"op": "entity-seed", "text": t, "formatter": fname, "seeds": [other, bad[0]]},
+                       expected=want, observed={str(sd): outs[sd] for sd in seeds}, kf=None)
+            else:
+                report(ctx, "entity-seeds", f"the '{fname}' formatter does not replace the longest entity key at each position",
+                       case={"op": "entity-seed", "text": t, "formatter": fname, "seeds": seeds[:2]}, expected=want,
+                       observed=outs[seeds[0]], kf=None)
+    ctx.exhaustive_parts.append(f"entity keys under hash seeds: every multi-code-point key of the html5 table and every first code point "
+                                f"of one x every second code point / combining mark, 5 contexts, text and attribute value, 'html' and "
+                                f"'html5', {len(seeds)} PYTHONHASHSEED values ({len(texts)} texts)")
 
 
 def stream_corpus(ctx, batch):
@@ -1173,6 +1324,7 @@ def run(ctx: Ctx):
     stream_call_log(ctx, ctx.n(800, 6000))
     stream_subst(ctx)
     stream_determinism(ctx)
+    stream_entity_seeds(ctx)
     if ctx.lean is not None and not ctx.lean.ok:
         ctx.notes.append("Lean obligations did not check: the constructor grid, the formatter_for_name grid (every registered and several "
                          "unregistered names x every flavour) and the subst stream (every key of CHARACTER_TO_HTML_ENTITY, alone and "
@@ -1227,6 +1379,21 @@ def replay(path):
         b = build_tree(c["recipe_b"]).decode(formatter=fa)
         print("same attributes inserted in two orders:\n ", ascii(a), "\n ", ascii(b))
         return 0 if a == b else 1
+    if op == "entity-seed":
+        import html as pyhtml
+        keys = entity_keyset()
+        exp = expected_entities(c["text"], keys, max(len(k) for k in keys), E()["ES"].CHARACTER_TO_HTML_ENTITY)
+        want = f'<b title="{exp}">{exp}</b>'
+        fi = ("html", "html5").index(c["formatter"])
+        res = run_children(ENT_CHILD, [c["text"]], c["seeds"])
+        print("text (also the value of title=):", ascii(c["text"]), "formatter:", c["formatter"])
+        rc = 0
+        for sd in c["seeds"]:
+            got = res[sd][0][fi]
+            print(f"PYTHONHASHSEED={sd}:", ascii(got))
+            rc |= got != want
+        print("property demands (longest key wins, same for every seed):", ascii(want))
+        return int(rc)
     if op == "hashseed":
         docs = [c["markup"]]
         a, b = (run_child(docs, s)["out"][0][c["rendering"]] for s in c["seeds"])
